@@ -35,6 +35,11 @@ def cases(quick):
                 for v in ('b208k1', 'b1m') if quick else ('b64k1', 'b208k1', 'b1m', 'b4m'):
                     out.append({'kind': kind, 'factory': factory, 'target': 'ret_value', 'args': [v], 'kwargs': {}, 'what': 'slow-reader/value:' + v,
                                 'slow_reader': {'chunk': 16384, 'sleep': 0.01}})
+            if kind in ('P', 'R') and not factory:
+                # a result which takes the parent a while to recreate, while the caller keeps asking whether the worker is done (for
+                # the remote kind: messages arriving on two connections are unpickled by two threads of the parent at the same time)
+                out.append({'kind': kind, 'factory': factory, 'target': 'ret_value', 'args': ['many'], 'kwargs': {}, 'what': 'polling-caller/value:many',
+                            'poll': True})
             for run in (None, True, False):
                 out.append({'kind': kind, 'factory': factory, 'target': 'echo_args', 'args': ['r'], 'kwargs': {}, 'run': run, 'what': 'run:%s' % run})
                 out.append({'kind': kind, 'factory': factory, 'target': None, 'args': [], 'kwargs': {}, 'run': run, 'what': 'no-target/run:%s' % run})
@@ -107,7 +112,8 @@ def run(ctx):
             create['slow_reader'] = c['slow_reader']
         sc = [create,
               {'op': 'call', 'var': 'w', 'method': 'is_alive', 'tag': 'alive0'},
-              {'op': 'call', 'var': 'w', 'method': 'wait', 'args': [20], 'timeout': 30, 'tag': 'wait', 'stop_on_hang': False},
+              ({'op': 'poll_wait', 'var': 'w', 'step': 0.002, 'gap': 0.0, 'within': 30, 'tag': 'wait'} if c.get('poll') else
+               {'op': 'call', 'var': 'w', 'method': 'wait', 'args': [20], 'timeout': 30, 'tag': 'wait', 'stop_on_hang': False}),
               {'op': 'get', 'var': 'w', 'attr': 'has_error', 'tag': 'has_error'},
               {'op': 'get', 'var': 'w', 'attr': 'result', 'tag': 'result'},
               {'op': 'get', 'var': 'w', 'attr': 'error', 'tag': 'error'},
@@ -147,7 +153,8 @@ def run(ctx):
                     bad = ('not-run-worker-called-the-target', ncalls)
             elif ref[0] == 'ret':
                 if (he, r, e) != (False, ref[1], None):
-                    bad = ('wrong-outcome-for-return', {'got': [he, r if not isinstance(r, str) or len(r) < 80 else r[:80], e], 'direct_call': ref[1] if not isinstance(ref[1], str) or len(ref[1]) < 80 else ref[1][:80]})
+                    short = lambda v: v if len(repr(v)) < 200 else repr(v)[:200] + '...'  # noqa
+                    bad = ('wrong-outcome-for-return', {'got': [he, short(r), e], 'direct_call': short(ref[1])})
             else:
                 if (he, r) != (True, None) or e != ref[1]:
                     bad = ('wrong-outcome-for-exception', {'got': [he, r, e], 'direct_call': ref[1]})
